@@ -229,6 +229,11 @@ fn c10_blocks(ctx: &Ctx) -> Vec<Blk> {
             b.push(Blk::Enum { chunk: 4096, gzip: None, prog: prog.clone(), policy, cap: if thorough(ctx) { 6000 } else { 600 }, bound: u32::MAX });
         }
     }
+    // the same through the gzip writer (the compressor hands its output over in several pieces)
+    for prog in [vec![POp::Write(10 * 4096), POp::Flush, POp::Wait], vec![POp::Wait, POp::Write(12 * 4096)]] {
+        b.push(Blk::Enum { chunk: 4096, gzip: Some(1), prog: prog.clone(), policy: WakerPolicy::Fresh, cap: if thorough(ctx) { 4000 } else { 400 }, bound: u32::MAX });
+        b.push(Blk::Enum { chunk: 1000, gzip: Some(6), prog, policy: WakerPolicy::Same, cap: if thorough(ctx) { 4000 } else { 400 }, bound: u32::MAX });
+    }
     let n_rand = if thorough(ctx) { 64 } else { 16 };
     for k in 0..n_rand {
         b.push(Blk::Random { chunk: [2usize, 1, 3, 4096][k % 4], gzip: if k % 5 == 4 { Some(1) } else { None }, n: if thorough(ctx) { 1600 } else { 250 }, len: (3, 6), salt: k as u64 });
